@@ -6,25 +6,30 @@ Require Import Mixin.Base.Res Mixin.Model.Election Mixin.Model.Quorum.
 Import ListNotations.
 Open Scope Z_scope.
 
-(* R id ts state tx *)
-Definition R (id : N) (ts : Z) (st : nstate) (tx : N) : nrec := mkrec id ts st tx.
+(* Every number in a case term is a Z literal (Z_scope is open for the case
+   files), converted here.  R id ts state tx; state 0 pledging, 1 accepted,
+   2 removed, 3 cancelled. *)
+Definition st_of (z : Z) : nstate :=
+  if z =? 0 then Pledging else if z =? 1 then Accepted else if z =? 2 then Removed else Cancelled.
+Definition R (id ts st tx : Z) : nrec := mkrec (Z.to_N id) ts (st_of st) (Z.to_N tx).
+Definition ids (l : list Z) : list N := map Z.to_N l.
 
 Inductive query :=
 | Q (ts : Z) (pledging : option nrec) (round : Z)
     (thr_final thr_nonfinal : Z)        (* ConsensusThreshold(ts, true / false) *)
-    (keys : list N)                     (* ids returned by ConsensusKeys(round, ts) *)
-    (removing : option N)               (* removingOrSlashingNodeAt(ts) *)
+    (keys : Z)                          (* ids returned by ConsensusKeys(round, ts), as [code] *)
+    (removing : option Z)               (* removingOrSlashingNodeAt(ts) *)
     (predictive : bool).                (* usePredictiveNodeRemovalSignerSet(ts) *)
 
 (* a certificate built by the harness over key vector [signed] with mask
    positions [pos]; obs = verifyFinalization accepted it *)
 Inductive cert :=
-| Cert (ts : Z) (pledging : option nrec) (round : Z) (signed : list N) (pos : list nat) (obs : bool).
+| Cert (ts : Z) (pledging : option nrec) (round : Z) (signed : list Z) (pos : list Z) (obs : bool).
 
 Inductive case :=
-| CQuorum (epoch : Z) (mainnet : bool) (genesis : list N) (recs : list nrec) (qs : list query)
-| CCerts (epoch : Z) (mainnet : bool) (genesis : list N) (recs : list nrec) (cs : list cert)
-| CMask (mask : N) (threshold : Z) (obs : bool).
+| CQuorum (epoch : Z) (mainnet : bool) (genesis : list Z) (recs : list nrec) (qs : list query)
+| CCerts (epoch : Z) (mainnet : bool) (genesis : list Z) (recs : list nrec) (cs : list cert)
+| CMask (mask : Z) (threshold : Z) (obs : bool).
 
 Fixpoint ids_eqb (a b : list N) : bool :=
   match a, b with
@@ -40,15 +45,34 @@ Definition optn_eqb (a b : option N) : bool :=
   | _, _ => false
   end.
 
+(* the observed id vector is sent as one number: ids (ranks 1..127 of the
+   harness' identity pool) are the base-128 digits, first id least significant;
+   injective on lists of ids in 1..127, the length included *)
+Definition code (l : list N) : Z := fold_right (fun i acc => Z.of_N i + 128 * acc) 0 l.
+
+(* Model.Quorum defines consensus_threshold / consensus_keys as the
+   compositions evaluated here; the node list and the excluded node of one
+   query are computed once (see check_query_is_model). *)
 Definition check_query (cfg : netcfg) (all : list nrec) (q : query) : bool :=
   match q with
   | Q ts pl round tf tn keys rem pred =>
-      (consensus_threshold cfg all ts true =? tf)
-      && (consensus_threshold cfg all ts false =? tn)
-      && ids_eqb (consensus_keys cfg all pl round ts) keys
-      && optn_eqb (option_map r_id (removing_at cfg all ts)) rem
+      let nodes := nodes_list all ts false in
+      let removing := removing_for cfg all ts in
+      (threshold_of_base (base_on cfg removing nodes ts true) =? tf)
+      && (threshold_of_base (base_on cfg removing nodes ts false) =? tn)
+      && (code (map r_id (with_pledging (ready_on cfg removing nodes ts) pl round)) =? keys)
+      && optn_eqb (option_map r_id (removing_at cfg all ts)) (option_map Z.to_N rem)
       && Bool.eqb (use_predictive cfg ts) pred
   end.
+
+Lemma check_query_is_model : forall cfg all ts pl round tf tn keys rem pred,
+  check_query cfg all (Q ts pl round tf tn keys rem pred) =
+  ((consensus_threshold cfg all ts true =? tf)
+   && (consensus_threshold cfg all ts false =? tn)
+   && (code (consensus_keys cfg all pl round ts) =? keys)
+   && optn_eqb (option_map r_id (removing_at cfg all ts)) (option_map Z.to_N rem)
+   && Bool.eqb (use_predictive cfg ts) pred).
+Proof. reflexivity. Qed.
 
 (* a certificate over [signed] at positions [pos] verifies against (keys, T)
    iff every position exists in keys and selects the same key, there is at
@@ -64,18 +88,18 @@ Definition cert_verifies (signed : list N) (pos : list nat) (p : list N * Z) : b
 Definition check_cert (cfg : netcfg) (all : list nrec) (c : cert) : bool :=
   match c with
   | Cert ts pl round signed pos obs =>
-      Bool.eqb (existsb (cert_verifies signed pos) (verify_params cfg all pl round ts)) obs
+      Bool.eqb (existsb (cert_verifies (ids signed) (map Z.to_nat pos)) (verify_params cfg all pl round ts)) obs
   end.
 
 Definition check (c : case) : bool :=
   match c with
   | CQuorum epoch mainnet genesis recs qs =>
-      let cfg := mkcfg epoch mainnet genesis in
+      let cfg := mkcfg epoch mainnet (ids genesis) in
       let all := load recs in
       forallb (check_query cfg all) qs
   | CCerts epoch mainnet genesis recs cs =>
-      let cfg := mkcfg epoch mainnet genesis in
+      let cfg := mkcfg epoch mainnet (ids genesis) in
       let all := load recs in
       forallb (check_cert cfg all) cs
-  | CMask mask threshold obs => Bool.eqb (mask_meets mask threshold) obs
+  | CMask mask threshold obs => Bool.eqb (mask_meets (Z.to_N mask) threshold) obs
   end.
